@@ -10,7 +10,10 @@ use succinct::{IntVec, IntVecMut, IntVector};
 use crate::filters::Filter;
 use crate::helpers::all_zero_intvector;
 
+#[cfg(not(feature = "verif-kicks2"))]
 const MAX_NUM_KICKS: usize = 500; // mentioned in paper
+#[cfg(feature = "verif-kicks2")]
+const MAX_NUM_KICKS: usize = 2;
 
 /// Error struct used to signal that a `CuckooFilter` is full, i.e. that a value cannot be inserted
 /// because the implementation was unable to find a free bucket.
@@ -593,6 +596,56 @@ where
             "CuckooFilter {{ bucketsize: {}, n_buckets: {} }}",
             self.bucketsize, self.n_buckets
         )
+    }
+}
+
+/// Verification hooks (raw state access); only built with the `verif` feature.
+#[cfg(feature = "verif")]
+#[doc(hidden)]
+impl<T, R, B> CuckooFilter<T, R, B>
+where
+    T: Hash + ?Sized,
+    R: Rng,
+    B: BuildHasher + Clone + Eq,
+{
+    /// Write a raw slot.
+    pub fn verif_set_slot(&mut self, i: usize, v: u64) {
+        self.table.set(i as u64, v);
+    }
+
+    /// Overwrite the element counter.
+    pub fn verif_set_n(&mut self, n: usize) {
+        self.n_elements = n;
+    }
+
+    /// Read a raw slot.
+    pub fn verif_slot(&self, i: usize) -> u64 {
+        self.table.get(i as u64)
+    }
+
+    /// Number of slots of the table.
+    pub fn verif_table_len(&self) -> usize {
+        self.table.len() as usize
+    }
+
+    /// Number of 64-bit blocks backing the table.
+    pub fn verif_table_blocks(&self) -> usize {
+        succinct::BitVec::block_len(&self.table)
+    }
+
+    /// Bucket offset derived from a fingerprint.
+    pub fn verif_bucket_of(&self, f: u64) -> usize {
+        self.hash(&f)
+    }
+
+    /// Fingerprint and both buckets of an element.
+    pub fn verif_start(&self, t: &T) -> (u64, usize, usize) {
+        self.start(t)
+    }
+
+    /// Eviction bound in this build.
+    pub fn verif_max_kicks() -> usize {
+        MAX_NUM_KICKS
     }
 }
 
